@@ -5,6 +5,18 @@ HERE = os.path.dirname(os.path.dirname(os.path.abspath(__file__)))
 sys.path.insert(0, HERE)
 
 CHECKS = {
+ 'C09': ('seqmon', 'exploration',
+         'The real encoder and decoder are run back to back (with exactly the transformation the transport applies in between) over the complete cross product of image format x memory layout x writability x backing x outputs_jpg x boundary sizes and over seeded random multi-topic frame sets; every field of every decoded frame is compared with the input. Held means no difference on any generated case.',
+         'Trusts OpenCV as the JPEG codec (tolerance is relative to an independent encode/decode of the same pixels); data limited to JSON-native values.', '6 C09'),
+ 'C13': ('seqmon', 'exploration',
+         'All operation sequences up to length 5 (quick) / 6 (thorough) over a 7-letter core in each of the four modes plus seeded random interleavings of write/read/read_block/seek/tell/refresh/reopen/unlink with 1-3 readers under a harness-owned clock (equal and backward timestamps exact) are executed on the real RollLog; every item any reader returns is checked against a list model, every write is bracketed by directory snapshots (budget, newest kept, no overwrite).',
+         'Sequential harness (one operation at a time); flush=True; a writer is never restarted with the clock behind the newest file that ever existed; seek targets are positions the reader can know.', '6 C13'),
+ 'C16': ('seqmon', 'exploration',
+         'Generated allow-list configurations (absent / empty / env / YAML / broken file, exact and * entries) meet generated instrument sets whose data are aggregated by the real OpenTelemetry SDK and exported by the real OTelLineageExporter; each facet key handed to the lineage emitter is checked with an independent matcher, histogram shape and numeric types included. A second path runs the whole OpenTelemetryClient in one subprocess per case.',
+         'Only * wildcards in allow-lists; allowlist=None passed programmatically is documented allow-all and not generated.', '6 C16'),
+ 'C17': ('seqmon', 'exploration',
+         'Every (w,h) in [1..24]^2 (quick) / [1..40]^2 (thorough) x {maxsize,minsize,resize} x {x,+} x five bound relations plus random sizes to 4000 px through the real Util.execute_xforms with an icontract post-condition on execute_xform_size; flips/rotations/swaps compared with numpy index permutations; boxes with an inside/outside oracle; generated frames through the real VideoReader thread over a stub VideoGear.',
+         'vidgear is stubbed (frames come from the harness); results above 25 Mpx are not generated; cv2 is trusted for pixel interpolation (only sizes are judged for resizes).', '6 C17'),
  # id: (engine, category, level text, level note, design ref)
  'C10': ('seqmon', 'exploration',
          'Every operation sequence of the quantifier\'s alphabet up to length 3 (quick) / 4 (thorough) from 18 start states is executed on the real Frame class in lock step with a reference model, plus seeded random sequences of length 5-25; held means no divergence in pixels, aliasing, writability or jpg attachment on any of them. Bounded exhaustive + sampled, not a proof.',
